@@ -297,6 +297,11 @@ def rule_list_sibling(ctx, px):
     recv_cls = _receiver_classes(px)
     for recv in ("self._generator", "self._support_generator"):
         g_calls = _gen_calls(gen, recv, "generate_all")
+        # a call with the constant is_dryrun=True inside the generating routine is a probe (it writes nothing and lists nothing):
+        # what _generate *does* is the remaining call
+        probes = [c_ for c_ in g_calls if c_.kw("is_dryrun", 0) == "True"]
+        if len(g_calls) - len(probes) == 1:
+            g_calls = [c_ for c_ in g_calls if c_ not in probes]
         l_calls = _gen_calls(lo, recv, "generate_all")
         i_calls = _gen_calls(li, recv, "get_templates")
         if len(g_calls) != 1:
